@@ -62,6 +62,17 @@ func sfuScenario(r *hutil.Rng, i int, stream string) (atrun.Scenario, Meta) {
 		body = append(body, atrun.Step{Op: "tx_begin", Conn: conn})
 	}
 	sm := StmtMeta{Kind: "sfu", Args: b.args, Expect: "any", Conn: conn}
+	if explicit && r.Chance(1, 2) {
+		// the local transaction first writes exactly the rows it then reads with FOR UPDATE
+		var nonpk string
+		for c := range t.cols {
+			if !t.isPK(c) && t.cols[c].Kind == "int" {
+				nonpk = t.cols[c].Name
+			}
+		}
+		body = append(body, atrun.Step{Op: "exec", Conn: conn, SQL: "UPDATE " + t.name + " SET " + nonpk + " = " + nonpk + " + 1 WHERE " + where, Args: b.args})
+		meta.Extra["wrote_first"] = "1"
+	}
 	sm.MatchPath = fmt.Sprintf("%d.%d", len(steps), len(body))
 	body = append(body, atrun.Step{Op: "query", Via: "bare", NoCtx: true, SQL: "SELECT " + strings.Join(t.pkNames(), ", ") + " FROM " + t.name + " WHERE " + where, Args: b.args})
 	sm.Path = fmt.Sprintf("%d.%d", len(steps), len(body))
@@ -90,11 +101,11 @@ func isoScenario(r *hutil.Rng, i int) (atrun.Scenario, Meta) {
 		case 0:
 			return atrun.Step{Op: "exec", SQL: "DELETE FROM t_kv WHERE k = ?", Args: []atrun.Arg{atrun.I(k)}}
 		case 1:
-			return atrun.Step{Op: "exec", SQL: "INSERT INTO t_kv (k, v) VALUES (?, ?)", Args: []atrun.Arg{atrun.I(int64(10 + r.Intn(3))), atrun.I(1)}}
+			return atrun.Step{Op: "exec", SQL: "INSERT INTO t_kv (k, Val) VALUES (?, ?)", Args: []atrun.Arg{atrun.I(int64(10 + r.Intn(3))), atrun.I(1)}}
 		case 2:
-			return atrun.Step{Op: "exec", SQL: "UPDATE t_kv SET v = v + 1 WHERE k <= ?", Args: []atrun.Arg{atrun.I(k)}}
+			return atrun.Step{Op: "exec", SQL: "UPDATE t_kv SET Val = Val + 1 WHERE k <= ?", Args: []atrun.Arg{atrun.I(k)}}
 		}
-		return atrun.Step{Op: "exec", SQL: "UPDATE t_kv SET v = ? WHERE k = ?", Args: []atrun.Arg{atrun.I(int64(r.Intn(90))), atrun.I(k)}}
+		return atrun.Step{Op: "exec", SQL: "UPDATE t_kv SET Val = ? WHERE k = ?", Args: []atrun.Arg{atrun.I(int64(r.Intn(90))), atrun.I(k)}}
 	}
 	var a []atrun.Step
 	add := func(list *[]atrun.Step, n int) {
@@ -113,5 +124,77 @@ func isoScenario(r *hutil.Rng, i int) (atrun.Scenario, Meta) {
 	// A stays open while B runs; nothing of A after B (the inner scope clobbers the shared context: C07)
 	a = append(a, atrun.Step{Op: "gtx", Propagation: 1, End: end, Steps: bsteps})
 	sc.Steps = []atrun.Step{{Op: "gtx", Steps: a}}
+	return sc, meta
+}
+
+// txScenario: ONE explicit local transaction with 2-4 write statements on one table inside a global transaction;
+// keys are drawn from small pools in which one key text is often a proper prefix of another (1/10/100, ab/abc).
+func txScenario(r *hutil.Rng, i int) (atrun.Scenario, Meta) {
+	strKeys := r.Chance(1, 3)
+	var t table
+	var pool, fresh []atrun.Arg
+	if strKeys {
+		t = table{name: "t_item", pk: []int{0}, cols: []ColMeta{{"code", "str", false}, {"Qty", "int", false}, {"note", "str", true}},
+			ddl: "CREATE TABLE t_item (code VARCHAR(16) NOT NULL, Qty INT NOT NULL DEFAULT 0, note VARCHAR(32) DEFAULT NULL, PRIMARY KEY (code))"}
+		for _, k := range []string{"a", "ab", "abc", "b", "ba", "c1"} {
+			pool = append(pool, atrun.S(k))
+			t.setup = append(t.setup, fmt.Sprintf("INSERT INTO t_item (code,Qty,note) VALUES ('%s',%d,'n')", k, r.Intn(50)))
+		}
+		for _, k := range []string{"abcd", "bab", "c", "c10"} {
+			fresh = append(fresh, atrun.S(k))
+		}
+	} else {
+		t = table{name: "t_kv", pk: []int{0}, cols: []ColMeta{{"k", "int", false}, {"Val", "int", false}},
+			ddl: "CREATE TABLE t_kv (k INT NOT NULL, Val INT NOT NULL DEFAULT 0, PRIMARY KEY (k))"}
+		for _, k := range []int64{1, 2, 10, 11, 20, 100} {
+			pool = append(pool, atrun.I(k))
+			t.setup = append(t.setup, fmt.Sprintf("INSERT INTO t_kv (k,Val) VALUES (%d,%d)", k, r.Intn(50)))
+		}
+		for _, k := range []int64{12, 101, 21, 3, 1000} {
+			fresh = append(fresh, atrun.I(k))
+		}
+	}
+	sc := atrun.Scenario{Name: fmt.Sprintf("c03-tx-%d", i), Setup: append([]string{t.ddl}, t.setup...)}
+	meta := Meta{Stream: "clean", Table: t.name, Cols: t.cols, PK: t.pk, OnlyCare: r.Chance(1, 2), Extra: map[string]string{"shape": "tx"}}
+	oc := meta.OnlyCare
+	sc.Config.OnlyCareUpdateColumns = &oc
+	keycol, valcol := t.cols[0].Name, t.cols[1].Name
+	body := []atrun.Step{{Op: "dump", Tables: []string{t.name}}, {Op: "tx_begin", Conn: "c1"}}
+	meta.Extra["dump_pre"] = "0.0"
+	used := map[string]bool{}
+	pick := func(from []atrun.Arg) atrun.Arg {
+		for tries := 0; tries < 20; tries++ {
+			a := from[r.Intn(len(from))]
+			if !used[a.V] {
+				used[a.V] = true
+				return a
+			}
+		}
+		return from[r.Intn(len(from))]
+	}
+	for j, n := 0, 2+r.Intn(3); j < n; j++ {
+		var st atrun.Step
+		sm := StmtMeta{Expect: "any", Conn: "c1"}
+		switch r.Intn(4) {
+		case 0:
+			sm.Kind = "delete"
+			st = atrun.Step{Op: "exec", Conn: "c1", SQL: "DELETE FROM " + t.name + " WHERE " + keycol + " = ?", Args: []atrun.Arg{pick(pool)}}
+		case 1:
+			sm.Kind = "insert"
+			st = atrun.Step{Op: "exec", Conn: "c1", SQL: "INSERT INTO " + t.name + " (" + keycol + ", " + valcol + ") VALUES (?, ?)", Args: []atrun.Arg{pick(fresh), atrun.I(int64(r.Intn(90)))}}
+		default:
+			sm.Kind = "update"
+			st = atrun.Step{Op: "exec", Conn: "c1", SQL: "UPDATE " + t.name + " SET " + valcol + " = ? WHERE " + keycol + " = ?", Args: []atrun.Arg{atrun.I(int64(100 + r.Intn(90))), pick(pool)}}
+		}
+		sm.Args = st.Args
+		sm.Path = fmt.Sprintf("0.%d", len(body))
+		body = append(body, st)
+		meta.Stmts = append(meta.Stmts, sm)
+	}
+	meta.Extra["commit_path"] = fmt.Sprintf("0.%d", len(body))
+	body = append(body, atrun.Step{Op: "tx_commit", Conn: "c1"}, atrun.Step{Op: "conn_close", Conn: "c1"})
+	meta.Extra["dump_post"] = fmt.Sprintf("0.%d", len(body))
+	body = append(body, atrun.Step{Op: "dump", Tables: []string{t.name}})
+	sc.Steps = []atrun.Step{{Op: "gtx", Steps: body}}
 	return sc, meta
 }
